@@ -518,7 +518,7 @@ func TestPropIDTransformer(t *testing.T) {
 		pattern := strings.Join(toks, ".")
 		tag := toks[tagAt][1:]
 		id := rapid.OneOf(
-			rapid.SampledFrom([]string{"42", "a", "$x", "$", "a$b", "~", "id", "{}", "\\", "\"q\""}),
+			rapid.SampledFrom([]string{"42", "a", "$x", "$", "a$b", "~", "id", "{}", "\\", "\"q\"", "v1%2E2", "%3F", "%2A%3E", "%25", "%", "a+b", "%2e"}),
 			rapid.StringOfN(rapid.RuneFrom(validPartRunes), 1, 8, -1),
 		).Draw(t, "id")
 		if rapid.IntRange(0, 9).Draw(t, "idLikeTag") == 0 {
@@ -545,7 +545,24 @@ func TestPropIDTransformer(t *testing.T) {
 			}
 		}
 		mux := res.NewMux(path)
-		mux.Handle(pattern, res.GetResource(func(res.GetRequest) {}))
+		if rapid.IntRange(0, 4).Draw(t, "renamedListener") == 0 {
+			// an event listener registered first on the same pattern, with placeholder names of its
+			// own: either the handler is refused then (the names of a node are fixed by the first
+			// registration), or the handler's parameters are still keyed by the handler's names
+			ltoks := append([]string(nil), toks...)
+			for i, tk := range ltoks {
+				if tk[0] == '$' {
+					ltoks[i] = "$z" + strconv.Itoa(i)
+				}
+			}
+			mux.AddListener(strings.Join(ltoks, "."), func(*res.Event) {})
+			if panics(func() { mux.Handle(pattern, res.GetResource(func(res.GetRequest) {})) }) {
+				ev.Case(true, evid.Hash("idt-refused", pattern), "id-transformer", "handler-refused-after-renamed-listener")
+				return
+			}
+		} else {
+			mux.Handle(pattern, res.GetResource(func(res.GetRequest) {}))
+		}
 		full := pattern
 		if path != "" {
 			full = path + "." + pattern
